@@ -2,7 +2,7 @@
    Only statements; every proof is `exact <lemma>` into coq/proofs.
    `ff_linear` is the model of _flip_flop_index along the sampling dimension (coq/model/C18.v);
    `fins l` embeds a list of rationals as finite values. *)
-From V Require Import lib.Tree gen.Gen_functions gen.Gen_C18_kern model.C18 proofs.C18 proofs.C18_mod proofs.C18_sector proofs.C18_rot proofs.C18_ang proofs.C18_prop.
+From V Require Import lib.Tree gen.Gen_functions gen.Gen_C18_kern model.C18 proofs.C18 proofs.C18_mod proofs.C18_sector proofs.C18_rot proofs.C18_ang proofs.C18_prop proofs.C18_inf.
 Open Scope list_scope.
 Open Scope Q_scope.
 
@@ -136,6 +136,25 @@ Theorem C18_proportion_exceeding_spec : forall (a : larr) (thr : list xv) (rd pd
 Proof. exact proportion_array_spec. Qed.
 Print Assumptions C18_proportion_exceeding_spec.
 
+(* infinite thresholds (catch-all bin edges): only a NaN index is missing, an infinite threshold compares as usual.
+   For every threshold that is not NaN the proportion is the fraction of valid index values at or above it ... *)
+Theorem C18_proportion_exceeding_any_threshold : forall (l : list xv) (t : xv), t <> XNaN ->
+  nanmean (map (fun x => exceed x t) l) =x= prop_ge_spec_x l t.
+Proof. exact proportion_list_spec_x. Qed.
+Print Assumptions C18_proportion_exceeding_any_threshold.
+
+(* ... hence 1 at -inf whenever a valid index exists (NaN only when none is valid) ... *)
+Theorem C18_proportion_exceeding_neg_inf : forall l : list xv,
+  nanmean (map (fun x => exceed x (XInf false)) l) =x= match valids l with [] => XNaN | _ => XFin 1 end.
+Proof. exact proportion_neg_inf. Qed.
+Print Assumptions C18_proportion_exceeding_neg_inf.
+
+(* ... and 0 at +inf when the index values are NaN or rational *)
+Theorem C18_proportion_exceeding_pos_inf : forall l : list xv, Forall (fun x => xisinf x = false) l ->
+  nanmean (map (fun x => exceed x (XInf true)) l) =x= match valids l with [] => XNaN | _ => XFin 0 end.
+Proof. exact proportion_pos_inf. Qed.
+Print Assumptions C18_proportion_exceeding_pos_inf.
+
 (* ---- arrays ---- *)
 (* flip_flop_index / encompassing_sector_size on an array apply the sequence functions above to the values along the
    sampling (resp. the single collapsed) dimension, for every assignment of the remaining dimensions *)
@@ -178,4 +197,9 @@ Proof. reflexivity. Qed.
 Example C18_ex_sector : sector_x false (fins [350; 10; 20]) =x= XFin 30 /\ sector_x false (fins [0; 180]) =x= XFin 180.
 Proof. split; vm_compute; reflexivity. Qed.
 Example C18_ex_angular : ff_angular (fins [350; 10; 350; 20]) =x= XFin 20.
+Proof. vm_compute. reflexivity. Qed.
+Example C18_ex_infinite_thresholds :
+  forallb (fun p => xeqb (fst p) (snd p))
+    (combine (map (fun t => nanmean (map (fun x => exceed x t) [XFin 15; XFin 40; XFin 10; XNaN])) [XInf false; XFin 0; XFin 20; XInf true])
+             [XFin 1; XFin 1; XFin (1 # 3); XFin 0]) = true.
 Proof. vm_compute. reflexivity. Qed.
